@@ -1,16 +1,28 @@
 """C09 — coroutine lifecycle: state, kill, restart and promise are coherent (spec/Coroutines.tla)."""
 from . import coroutines_common as cc
 
+BASE = dict(WithKill=True, StartCancelsPendingKill=True, FinishDropsKillMark=True)
+
 
 def run(res):
     th = res.tier == 'thorough'
     # start / kill / restart from outside and from inside bodies, over runnable, waiting and finished coroutines
     K = dict(G=('g1', 'g2'), Script={'g1': (('y', 0), ('y', 2), ('kill', 2)), 'g2': (('y', 1), ('start', 1), ('y', 0))},
-             Dts={1, 2}, MaxTimer=6, WithKill=True, StartCancelsPendingKill=True)
-    cc.check_and_replay(res, 'c09_two', K, depth_all=4, walks=3000)
+             Dts={1, 2} if th else {1}, MaxTimer=6, **BASE)
+    cc.check_and_replay(res, 'c09_two', K, depth_all=5 if th else 4, walks=20000 if th else 2000)
+    # a coroutine that kills itself (and goes on, or returns at once), that tries to restart itself, state queries from
+    # inside bodies - also in the very frame in which a wait elapses
+    Ks = dict(G=('g1', 'g2'), Script={'g1': (('y', 0), ('kill!', 1), ('start', 1), ('y', 0)), 'g2': (('y', 2), ('state', 2), ('kill!', 2))},
+              Dts={1, 2}, MaxTimer=6, **BASE)
+    cc.check_and_replay(res, 'c09_self', Ks, depth_all=0, walks=10000 if th else 1000)
+    Kw = dict(G=('g1', 'g2'), Script={'g1': (('state', 2), ('state', 2), ('kill!', 2), ('start', 2), ('state', 2)), 'g2': (('y', 1), ('state', 2), ('y', 0))},
+              Dts={1}, MaxTimer=6, **BASE)
+    cc.check_and_replay(res, 'c09_wake_frame', Kw, depth_all=0, walks=10000 if th else 1000)
     K3 = dict(G=('g1', 'g2', 'g3'), Script={'g1': (('y', 0), ('kill', 3)), 'g2': (('y', 2),), 'g3': (('start', 2), ('y', 1))},
-              Dts={1}, MaxTimer=6, WithKill=True, StartCancelsPendingKill=True)
-    cc.check_and_replay(res, 'c09_three', K3, depth_all=0, walks=2000)
-    K2 = dict(K, StartCancelsPendingKill=False)
-    res.model_check_py('Coroutines', 'c09_asimpl_start', K2, invariants=cc.INVARIANTS, properties=cc.PROPERTIES,
-                       expect_violation=('NoBad', 'StateCoherent', 'NoDuplicates', 'StructuresAgree'), count=False)
+              Dts={1}, MaxTimer=6, **BASE)
+    cc.check_and_replay(res, 'c09_three', K3, depth_all=0, walks=10000 if th else 1000)
+    for sw in ('StartCancelsPendingKill', 'FinishDropsKillMark'):
+        K2 = dict(Ks if sw == 'FinishDropsKillMark' else K)
+        K2[sw] = False
+        res.model_check_py('Coroutines', 'c09_asimpl_' + sw, K2, invariants=cc.INVARIANTS, properties=cc.PROPERTIES,
+                           expect_violation=('NoBad', 'StateCoherent', 'NoDuplicates', 'StructuresAgree'), count=False)
